@@ -7,12 +7,16 @@ package tls
 
 type verifConnState struct{}
 
-func (c *Conn) verifRewriteOut(msg handshakeMessage, data []byte) []byte    { return data }
-func (c *Conn) verifClientVersions(ch *clientHelloMsg, v []uint16) []uint16 { return v }
-func (c *Conn) verifCanary(random []byte)                                   {}
-func (c *Conn) verifPickSuite12(s *cipherSuite) *cipherSuite                { return s }
-func (c *Conn) verifPickSuite13(s *cipherSuiteTLS13) *cipherSuiteTLS13      { return s }
-func (c *Conn) verifSelectGroup(g CurveID) CurveID                          { return g }
-func (c *Conn) verifSecondHello(ch *clientHelloMsg)                         {}
-func (c *Conn) verifReadClientEE(transcript transcriptHash) error           { return nil }
-func (c *Conn) verifYield(point string)                                     {}
+func (c *Conn) verifRewriteOut(msg handshakeMessage, data []byte) []byte      { return data }
+func (c *Conn) verifClientVersions(ch *clientHelloMsg, v []uint16) []uint16   { return v }
+func (c *Conn) verifCanary(random []byte)                                     {}
+func (c *Conn) verifPickSuite12(s *cipherSuite) *cipherSuite                  { return s }
+func (c *Conn) verifPickSuite13(s *cipherSuiteTLS13) *cipherSuiteTLS13        { return s }
+func (c *Conn) verifSelectGroup(g CurveID) CurveID                            { return g }
+func (c *Conn) verifSecondHello(ch *clientHelloMsg)                           {}
+func (c *Conn) verifReadClientEE(transcript transcriptHash) error             { return nil }
+func (c *Conn) verifYield(point string)                                       {}
+func (c *Conn) verifSplitShare(sel, g CurveID, data []byte) (CurveID, []byte) { return g, data }
+func (c *Conn) verifHybridEncap(hs *serverHandshakeStateTLS13, sel CurveID, ks *keyShare) error {
+	return nil
+}
